@@ -88,6 +88,11 @@ CLAIMED = {
         text="TLC enumerates all 1292 assignments of {absent, valid A, valid B, invalid, keyword} to the sources (environment variable, PIKA_COMMANDLINE_OPTIONS, --pika:ini, specific option) of six settings; each case (quick: 600 sampled) is started for real and the value in use is read from the live runtime (worker count, scheduler, per-worker masks, stack size of a default task, config entry), not from the parsed options; TLC evaluates the resolution rule on every outcome and names the deviation that explains a rejected one; unknown options and non-pika argument pass-through are covered too",
         note="TLC is enumerator and evaluator of the rule (no interleavings); one setting varied at a time; two open findings (duplicate option across PIKA_COMMANDLINE_OPTIONS and command line aborts; invalid stack size silently ignored)",
         design="5/C16"),
+    "C18": dict(
+        technique="TLA+ spec WrapperAbs of the wrapper state machine (slots, contained objects with identity/size/state, live-object ledger); TLC enumerates all operation sequences (and simulates longer ones) with the expected observations, which are replayed step by step on the real wrappers",
+        text="model-based testing in the spec->implementation direction: every sequence of make(small/large)/copy/move/reset/swap/invoke of length 3 (thorough: 4) over 2 slots plus thousands of TLC-simulated length-10 sequences over 3 slots is executed on function, unique_function, any_sender and unique_any_sender, comparing after every step emptiness of each slot, the invocation result or defined empty-error, independence of copies (per-object call counters) and the number of live contained objects (exactly-once destruction, inline and heap storage)",
+        note="sequential behaviour only (wrappers are not shared between threads); equivalence of erased and unerased pipelines is covered with C03",
+        design="5/C18"),
 }
 
 NOT_YET = {}
